@@ -162,6 +162,7 @@ func runC10(c *Ctx) {
 	c10R7(c)
 	c10R8(c)
 	c10R10(c)
+	c10R11(c)
 	c07R4As(c, c.R.Rule("R9", "K3 (= C07.R4) the DLQ's fatal causes: in both engines a nack the window refuses is a fatal error when the DLQ is enabled, and a v2 DLQ write failure — a failed call or a negative per-record ack — is fatal", 6))
 }
 
@@ -859,6 +860,31 @@ func c10R4(c *Ctx) {
 		}
 		c.R.Check(found, r, "v2 doTaskAttempt: a processor error whose nack fails is fatal", c.Pos(fn.Pos()), "FatalError", "a ProcessorTask nack failure is no longer returned as cerrors.FatalError: an unabsorbed processor error would restart the pipeline forever", true)
 	}
+	// v2: a reply whose length does not fit (no results / more results than records) is a non-converging processor:
+	// nothing was acked, a restart replays the same records into the same processor (F44) — fatal, as in v1
+	if fn := c.SSA(r, pFunnel, "(*ProcessorTask).Do"); fn != nil {
+		n := 0
+		for _, ret := range kit.Returns(fn) {
+			v := kit.RetVal(ret, 0)
+			if kit.IsNilConst(v) {
+				continue
+			}
+			cl, isCall := v.(*ssa.Call)
+			if !isCall {
+				continue // a propagated error value keeps its own classification
+			}
+			f := kit.CalleeOf(cl.Common())
+			if f == nil || f.Pkg() == nil || !strings.HasSuffix(f.Pkg().Path(), "/cerrors") {
+				// cerrors.Errorf is a package-level variable in this repo: a call through it has no static callee
+				if _, isU := cl.Call.Value.(*ssa.UnOp); !isU {
+					continue
+				}
+			}
+			n++
+			c.R.Check(f == fatal, r, "v2 ProcessorTask.Do: a constructed error (reply does not fit the records) is fatal", c.Pos(posOf(ret)), "FatalError", "ProcessorTask.Do returns a freshly constructed, unclassified error for a processor reply that does not fit the records it was given: nothing was acked, so recovery restarts the pipeline, replays the same records into the same deterministic processor and fails again — with the default unlimited retries it flaps between Running and Recovering for ever instead of degrading (the default engine marks the same failure fatal)", true)
+		}
+		c.R.Check(n >= 2, r, "v2 ProcessorTask.Do: length-mismatch returns", c.Pos(fn.Pos()), "found", "fewer than two constructed error returns found in ProcessorTask.Do", true)
+	}
 }
 
 func c10R5(c *Ctx) {
@@ -1024,6 +1050,7 @@ func runC11(c *Ctx) {
 	c11R9(c)
 	c11R10(c)
 	c11R13(c)
+	c11R14(c)
 	c10R1As(c, c.R.Rule("R12", "K3 (= C10.R1) the stored status agrees with how the run ended: in the cleanup goroutine of both engines Degraded is written only for a fatal error or a failed recovery, and a stopped status only where the run's error is known not to be fatal", 14))
 	r11 := c.R.Rule("R11", "K5 frozen guarded-by table: pipeline.Instance.status is read and written only under statusLock (the status Start/Stop decide on is never a torn or stale read)", 2)
 	c.guardTable(r11, guardEntry{Rel: pPipe, Struct: "Instance", Mutex: "statusLock", Fields: []string{"status"}, Min: 2})
@@ -1834,5 +1861,95 @@ func c12R9(c *Ctx) {
 			}
 			c.R.Check(!bad, r, name+": no failing exit after the instance was marked running", c.Pos(m.Pos()), "ok", name+" sets Instance.connector before a step that can still fail and never clears it on that failure: after a start that fails there (e.g. a force stop during start-up) the run ends, but every later Start is refused with 'connector is running'", true)
 		}
+	}
+}
+
+// c10R11: F42. "A pipeline that a user stopped is never restarted by recovery" also when the stop was graceful and the
+// drain it started ends with a transient error (a destination failing on the in-flight record): the v1 Stop marks the
+// run before it asks the nodes to stop, and the cleanup goroutine enters recovery only for an unmarked run.
+func c10R11(c *Ctx) {
+	r := c.R.Rule("R11", "K3 v1: a gracefully stopped run is not recovered: Service.Stop sets the run's intentionalStop marker before stopGraceful, and in runPipeline's cleanup goroutine recoverPipeline is called only behind the !intentionalStop.Load() edge", 2)
+	marker := c.Field(r, pLife, "runnablePipeline", "intentionalStop")
+	stop := c.SSA(r, pLife, "(*Service).Stop")
+	run := c.SSA(r, pLife, "(*Service).runPipeline")
+	sg := c.Fn(r, pLife, "(*Service).stopGraceful")
+	rec := c.Fn(r, pLife, "(*Service).recoverPipeline")
+	if marker == nil || stop == nil || run == nil || sg == nil || rec == nil {
+		return
+	}
+	g := kit.NewGates()
+	for _, m := range []string{"Store", "CompareAndSwap", "Swap"} {
+		for _, call := range atomicCalls(stop, marker, m) {
+			a := call.Common().Args
+			if kit.IsBoolConst(a[len(a)-1], true) {
+				g.AddInstr(call, "rp.intentionalStop."+m+"(true)")
+			}
+		}
+	}
+	c.Dominated(r, "v1 Stop: the run is marked as stopped by the user before the nodes are asked to stop", asInstrs(kit.CallsTo(stop, Set(sg))), g, "rp.intentionalStop.Store/CompareAndSwap(…, true)")
+	// cleanup goroutine: recovery only for an unmarked run
+	n := 0
+	for _, lit := range kit.WithAnon(run) {
+		calls := kit.CallsTo(lit, Set(rec))
+		if len(calls) == 0 {
+			continue
+		}
+		n += len(calls)
+		gl := kit.NewGates()
+		for _, ld := range atomicCalls(lit, marker, "Load") {
+			gl.AddEdges(kit.CondEdges(ld.Value(), false), "!rp.intentionalStop.Load()")
+		}
+		c.Dominated(r, "v1 cleanup: recovery only for a run the user did not stop", asInstrs(calls), gl, "the !rp.intentionalStop.Load() edge")
+	}
+	c.R.Check(n >= 1, r, "v1 cleanup: recoverPipeline call", c.Pos(run.Pos()), "found", "no recoverPipeline call found in runPipeline's goroutines", true)
+}
+
+// c11R14: F43. A graceful stop hands the source node a control message through pubNodeBase.InjectControlMessage. The
+// node may be busy handing a record downstream and end from there (its context is cancelled because the run failed);
+// its cleanup needs the node lock. Waiting for the node to take the message while HOLDING that lock wedges both: Stop
+// never returns, the node never ends, the pipeline stays Running and not even a force stop releases it.
+func c11R14(c *Ctx) {
+	r := c.R.Rule("R14", "K5/K4 a stop cannot wedge against a dying node: pubNodeBase.InjectControlMessage waits for the node to take the control message without holding the node lock, and the wait has an arm on a channel that cleanup closes", 3)
+	fn := c.SSA(r, pStream, "(*pubNodeBase).InjectControlMessage")
+	cl := c.SSA(r, pStream, "(*pubNodeBase).cleanup")
+	if fn == nil || cl == nil {
+		return
+	}
+	ls := kit.Locksets(fn, c.W.StdLockSpec(), nil)
+	sels := kit.Selects(fn)
+	c.R.Check(len(sels) == 1, r, "InjectControlMessage: one wait for the node", c.Pos(fn.Pos()), "select", "expected exactly one select in InjectControlMessage", true)
+	// channels closed by cleanup
+	closed := map[*types.Var]bool{}
+	for _, b := range cl.Blocks {
+		for _, in := range b.Instrs {
+			if call, ok := in.(*ssa.Call); ok {
+				if bi, ok := call.Call.Value.(*ssa.Builtin); ok && bi.Name() == "close" {
+					if _, f := kit.FieldBase(call.Call.Args[0]); f != nil {
+						closed[f] = true
+					}
+				}
+			}
+		}
+	}
+	for _, sel := range sels {
+		c.R.Check(!containsLock(ls[sel], "recv.lock"), r, "InjectControlMessage: the node lock is not held while waiting for the node", c.Pos(sel.Pos()), "held "+ls[sel], "InjectControlMessage blocks on the send to the node while holding n.lock: a node that ends without returning to its trigger (busy sending downstream when the run's context is cancelled) needs the same lock in cleanup — Stop never returns, the node never ends, the pipeline stays Running, Start is refused and a force stop cannot release it", true)
+		arm := false
+		for _, st := range sel.States {
+			if st.Dir != types.RecvOnly {
+				continue
+			}
+			if _, f := kit.FieldBase(st.Chan); f != nil && closed[f] && f.Name() != "out" {
+				arm = true
+			}
+			// a local copy of the field taken under the lock
+			if !arm {
+				for f := range closed {
+					if f.Name() != "out" && kit.DerivesFrom(st.Chan, func(x ssa.Value) bool { return kit.IsFieldLoad(x, f) }) {
+						arm = true
+					}
+				}
+			}
+		}
+		c.R.Check(arm, r, "InjectControlMessage: the wait ends when the node stops", c.Pos(sel.Pos()), "an arm on a channel cleanup closes", "the select in InjectControlMessage has no arm on a channel that pubNodeBase.cleanup closes: a stop racing a node that is ending waits until its own context is cancelled — StopAll at shutdown uses context.Background(), so SIGTERM never completes", true)
 	}
 }
